@@ -15,6 +15,7 @@ import (
 	"time"
 	"unsafe"
 
+	"evylang.dev/evy/pkg/evaluator"
 	wasmsim "evylang.dev/evy/pkg/wasm"
 	"evylang.dev/evy/vdrv/core"
 	"evylang.dev/evy/vsim/maporder"
@@ -85,6 +86,8 @@ type Result struct {
 	Dropped          int    // events that arrived while no listener was attached
 	StopDuring       string // what Go was doing when Stop was clicked: sleep|read-poll|forced-yield|idle
 	ArrivedWhileBusy int
+	TypeMon          string // first run-time type mismatch seen by the monitor inside eval
+	TypeMonChecks    int64
 }
 
 // Trace renders the effect trace.
@@ -511,6 +514,13 @@ func Run(sc *core.Scenario, o Opts) *Result {
 		b.push(&task{at: o.StopAtNs, kind: "stop"})
 	}
 	setRand(sc.RandSeed)
+	evaluator.SimTypeMonOn = true
+	evaluator.SimTypeMonTake()
+	checks0 := evaluator.SimTypeMonChecks
+	defer func() {
+		res.TypeMon = evaluator.SimTypeMonTake()
+		res.TypeMonChecks = evaluator.SimTypeMonChecks - checks0
+	}()
 	func() {
 		defer func() {
 			if p := recover(); p != nil {
